@@ -434,7 +434,7 @@ SCENARIOS = [
                 ["c.o", "f", False]],
          ["build", "*.o"], [["text", "m"]]),
      [(["."], True), (["old~"], True), (["c.o"], False), (["build"], True), (["n"], True), (["n/x"], True),
-      (["m.OTHER"], True), (["w/e"], True), ([".bzr/README"], True)]),
+      (["m.OTHER"], True), (["w/e"], True), (["w/e", "."], True), ([".bzr/README"], True)]),
 ]
 
 
